@@ -49,6 +49,31 @@ THEOREMS = [
     "SynKit.ReactorLink.glue_own_template_partial",
     "SynKit.ReactorInv.C04.glueRebuilds_concrete_partial",
     "SynKit.ReactorInv.C04.own_template_regenerates_concrete_partial",
+    "SynKit.ReactorInv.C04.ownTemplate_full_its",
+    "SynKit.ReactorInv.C04.ownTemplate_centre",
+    "SynKit.ReactorInv.C04.rcComplete_full_its",
+    "SynKit.ReactorInv.C04.rcComplete_centre",
+    "SynKit.ReactorInv.C04.exists_match_of_ownTemplate",
+    "SynKit.ReactorInv.C04.own_template_regenerates_full_its",
+    "SynKit.ReactorInv.C04.own_template_regenerates_centre",
+    "SynKit.ReactorInv.concrete_results_backward",
+    "SynKit.ReactorInv.C04.own_template_regenerates_concrete_strategy",
+    "SynKit.ReactorInv.C04.id_mem_search_all",
+    "SynKit.ReactorInv.C04.ownTemplate_backward",
+    "SynKit.ReactorInv.C04.backward_pattern",
+    "SynKit.ReactorInv.C04.own_template_regenerates_both_directions",
+    "SynKit.ReactorInv.C04.own_template_regenerates_full_its_results",
+    "SynKit.ReactorInv.C04.own_template_regenerates_centre_results",
+    "SynKit.ReactorInv.C04.id_mem_search_comp",
+    "SynKit.ReactorInv.C04.id_mem_search_bt",
+    "SynKit.ReactorInv.C04.own_template_regenerates_comp_bt",
+    "SynKit.ReactorInv.C04.own_template_regenerates_full_its_comp_bt",
+    "SynKit.ReactorInv.C04.own_template_regenerates_core",
+    "SynKit.ReactorInv.C04.exists_match_core",
+    "SynKit.ReactorInv.C04.own_template_regenerates_both_directions_core",
+    "SynKit.ReactorInv.C04.own_template_regenerates_full_its_core",
+    "SynKit.ReactorInv.C04.own_template_regenerates_full_its_results_core",
+    "SynKit.ReactorInv.C04.own_template_regenerates_centre_results_core",
 ]
 
 
